@@ -145,9 +145,164 @@ R.spec(T, "_tell_with_warning", props=["C02"],
                "implies(study._storage.g_ssv_state == TrialState.FAIL, study._storage.g_ssv_values is None)",
                "implies(study._storage.g_ssv_state == TrialState.COMPLETE, "
                "stored_values_match(study._storage.g_ssv_values, study, value_or_values))",
+           ], ensures_return=[
+               "result.state == study._storage.g_state[%s]" % TID,
+               "result._trial_id == " + TID,
+               # the warning Study.optimize logs for a FAIL without exception is attached to the result
+               "implies(state is None and suppress_warning and result.state == TrialState.FAIL, "
+               "STUDY_TELL_WARNING_KEY in result._system_attrs)",
            ]),
        ],
-       modifies=storage_model.AS_MOD + ["F:_ThreadLocalStudyAttribute.cached_all_trials", "F:FrozenTrial.*",
-                                        "D:*:dict<str,val>@ts", "D:*@t*", "L:*:list<float>", "L:*:list<val>"],
+       # FrozenTrial objects and their dicts are NOT in the frame: the deep copy that tell returns (and
+       # decorates with the warning) is fresh, everything that existed before the call is unchanged (C20)
+       modifies=storage_model.AS_MOD + ["F:_ThreadLocalStudyAttribute.cached_all_trials"],
        note="verified for trial: Trial (what Study.optimize passes); the int branch of _get_frozen_trial differs "
             "only by a storage lookup that raises ValueError before any write")
+
+
+# ------------------------------------------------------------------------------------------------
+# _run_trial / _optimize_sequential
+import optuna.exceptions as _oe  # noqa: E402
+
+
+class _UserError(Exception):
+    """Representative of 'any Exception subclass' raised by an unknown callable."""
+
+
+def _havoc_flags(eng, st):
+    eng.havoc_harr(st, eng.fname("Study", "_stop_flag")[0])
+
+
+def _objective(eng, st, f, args, kwargs, node):
+    """Unknown objective: returns any Python value or raises TrialPruned / any Exception /
+    KeyboardInterrupt.  It may call study.stop(); it changes trial states only through the storage."""
+    _havoc_flags(eng, st)
+    c = st.decide(4, "objective")
+    if c == 0:
+        return SV(KVal, st.fresh("objective_value", val_sort()))
+    cls = {1: _oe.TrialPruned, 2: _UserError, 3: KeyboardInterrupt}[c]
+    from pyvc.state import PyRaise, PyExc
+    raise PyRaise(PyExc(cls, where="objective"))
+
+
+def _callback(eng, st, f, args, kwargs, node):
+    from pyvc.state import PyRaise, PyExc, NONE
+    name, _ = eng.fname("BaseStorage", "g_cb_calls")
+    _havoc_flags(eng, st)
+    study = args[0]
+    sto = eng.get_field(st, study, "_storage")
+    arr = eng.harr(st, name)
+    st.heap[name] = z3.Store(arr, sto.term, arr[sto.term] + 1)
+    if st.decide(2, "callback") == 1:
+        raise PyRaise(PyExc(_UserError, where="callback"))
+    return NONE
+
+
+R.unknown_callables["callable"] = _objective
+R.unknown_callables["callback"] = _callback
+
+
+@R.specfunc("isinstance_symbolic")
+def _isinstance_symbolic(eng, st, v, c):
+    """isinstance(exc, catch) with a symbolic tuple of Exception classes: an uninterpreted predicate of
+    (class of the exception, catch); KeyboardInterrupt is never matched (catch holds Exception types)."""
+    from pyvc.state import PyExc
+    if v.kind is KConst and isinstance(v.const, PyExc):
+        if not issubclass(v.const.cls, Exception):
+            return SV(KBool, z3.BoolVal(False))
+        return SV(KBool, uf("catch_matches_" + v.const.cls.__name__, z3.IntSort(), z3.BoolSort())(c.term))
+    raise Exception("isinstance with symbolic classes on %s" % v.kind)
+
+
+import sys as _sys  # noqa: E402
+R.rt_helpers["model_int_overflow"] = True
+
+LAST = "study._storage.g_last_asked"
+R.spec(O, "_log_failed_trial", inline=True, types={"message": "Any", "trial": "FrozenTrial"})
+R.spec(O, "_run_trial", props=["C02"],
+       types={"study": "Study", "func": "ref[callable]", "catch": "list[ref[callable]]"},
+       locals={"func_err": None, "func_err_fail_exc_info": None, "value_or_values": "Any"},
+       requires=["len(study._directions) >= 1"],
+       cases=[case("any", any_outcome=True, ensures=[
+           # whatever the objective did: the trial started by this call is finished on every exit
+           "implies(study._storage.g_ask_calls != old(study._storage.g_ask_calls), "
+           "%s in study._storage.g_state and finished(study._storage.g_state[%s]))" % (LAST, LAST),
+           "implies(study._storage.g_ask_calls != old(study._storage.g_ask_calls), as_monotone_except(study._storage, %s))" % LAST,
+           "implies(study._storage.g_ask_calls == old(study._storage.g_ask_calls), as_monotone_except(study._storage, None))",
+           "study._storage.g_runs == old(study._storage.g_runs)",
+       ])],
+       modifies=storage_model.ASK_MOD + ["F:_ThreadLocalStudyAttribute.cached_all_trials", "F:FrozenTrial.*",
+                                         "F:Study._stop_flag", "D:*@t*", "L:*:list<float>", "L:*:list<val>"])
+
+# normal return of _run_trial: exactly one ask happened, and the returned trial is the asked one
+R.contracts[(O, "_run_trial")].cases[0].ensures_return = [
+    "study._storage.g_ask_calls == old(study._storage.g_ask_calls) + 1",
+    "result._trial_id == %s" % LAST,
+]
+
+P = "optuna/progress_bar.py"
+R.schema("_ProgressBar", {})
+import optuna.progress_bar as _pb  # noqa: E402
+R.classes["_ProgressBar"] = _pb._ProgressBar
+for _m in ("__init__", "update", "close"):
+    R.spec(P, "_ProgressBar." + _m, trusted=True, cases=[case("ok")], types={"study": "Study"},
+           note="progress bar: display only")
+
+SEQ_INV = [
+    "new_trials_finished(study._storage)",
+    "i_trial >= 0",
+    "implies(n_trials is not None, i_trial <= n_trials)",
+    "implies(n_trials is not None, study._storage.g_ask_calls == old(study._storage.g_ask_calls) + i_trial)",
+]
+SEQ_MOD = storage_model.ASK_MOD + ["F:BaseStorage.g_cb_calls", "F:Study._stop_flag",
+                                   "F:_ThreadLocalStudyAttribute.*", "F:FrozenTrial.*", "D:*@t*",
+                                   "L:*:list<float>", "L:*:list<val>"]
+R.spec(O, "_optimize_sequential", props=["C02"],
+       types={"study": "Study", "func": "ref[callable]", "catch": "list[ref[callable]]",
+              "callbacks": "list[ref[callback]] | None", "time_start": "ref[datetime] | None",
+              "progress_bar": "ref[_ProgressBar] | None"},
+       locals={"time_start": "ref[datetime] | None"},
+       requires=["len(study._directions) >= 1", "n_trials is None or n_trials >= 0"],
+       cases=[case("any", any_outcome=True,
+                   ensures=["new_trials_finished(study._storage)"],
+                   ensures_return=[
+                       # exactly n_trials trials run when nothing stops the loop
+                       "implies(n_trials is not None and timeout is None and not study._stop_flag, "
+                       "study._storage.g_ask_calls == old(study._storage.g_ask_calls) + n_trials)",
+                       # callbacks ran exactly once for every trial (none of whose exceptions propagated)
+                       "implies(n_trials is not None and callbacks is not None, study._storage.g_cb_calls == "
+                       "old(study._storage.g_cb_calls) + (study._storage.g_ask_calls - old(study._storage.g_ask_calls)) * len(callbacks))",
+                   ])],
+       loops={
+           0: loop(invariant=SEQ_INV + [
+               "implies(n_trials is not None and callbacks is not None, study._storage.g_cb_calls == "
+               "old(study._storage.g_cb_calls) + i_trial * len(callbacks))",
+               "implies(callbacks is None, study._storage.g_cb_calls == old(study._storage.g_cb_calls))"],
+               modifies=SEQ_MOD, locals={"time_start": "ref[datetime] | None", "elapsed_seconds": "float"}),
+           1: loop(index="_i", invariant=SEQ_INV + [
+               "0 <= _i", "_i <= len(callbacks)", "callbacks is not None", "implies(n_trials is not None, i_trial >= 1)",
+               "implies(n_trials is not None, study._storage.g_cb_calls == "
+               "old(study._storage.g_cb_calls) + (i_trial - 1) * len(callbacks) + _i)"],
+               modifies=SEQ_MOD),
+       },
+       modifies=SEQ_MOD)
+
+R.spec(O, "_optimize", props=["C02"],
+       types={"study": "Study", "func": "ref[callable]", "catch": "list[ref[callable]]",
+              "callbacks": "list[ref[callback]] | None"},
+       requires=["len(study._directions) >= 1", "n_trials is None or n_trials >= 0", "n_jobs == 1"],
+       cases=[
+           case("bad-catch", when="not isinstance(catch, tuple)", raises="TypeError", ensures=["as_unchanged(study._storage)"]),
+           case("nested", when="study._thread_local.in_optimize_loop", raises="RuntimeError", ensures=["as_unchanged(study._storage)"]),
+           case("run", any_outcome=True,
+                ensures=["new_trials_finished(study._storage)", "not study._thread_local.in_optimize_loop"],
+                ensures_return=[
+                    # a stop request left over from an earlier optimize() must not stop this one
+                    "implies(n_trials is not None and timeout is None and not study._stop_flag, "
+                    "study._storage.g_ask_calls == old(study._storage.g_ask_calls) + n_trials)",
+                    "implies(n_trials is not None and callbacks is not None, study._storage.g_cb_calls == "
+                    "old(study._storage.g_cb_calls) + (study._storage.g_ask_calls - old(study._storage.g_ask_calls)) * len(callbacks))",
+                ]),
+       ],
+       modifies=SEQ_MOD,
+       note="verified for n_jobs == 1; the thread-pool branch submits _optimize_sequential(n_trials=1) per future")
